@@ -170,12 +170,11 @@ def bmc_query(ts, depth, bad_names, stutter_choice, timeout_s=1500, extra_init=N
     if seed is not None:
         # waypoint: first find a schedule to a state satisfying the seed predicate, then explore from that concrete
         # state (verdicts of transactions that do not exist yet stay free)
-        prefix = bmc_query(ts, seed['depth'], [seed['pred']], stutter_choice, timeout_s)
+        prefix = bmc_query(ts, seed['depth'], [seed['pred']], stutter_choice, timeout_s, seed=seed.get('seed'))
         if prefix['result'] != 'sat':
             return {'result': 'seed-' + prefix['result'], 'build_s': prefix.get('build_s', 0), 'solve_s': prefix.get('solve_s', 0),
                     'depth': depth, 'preds': list(bad_names), 'seed': seed}
-        hitk = prefix['hit'][1]
-        init_state = dict(prefix['states'][hitk])
+        init_state = dict(prefix['hit_state'])
         nx_exists = {n.split('.Txs[')[1].split(']')[0] for n, v in init_state.items() if '.Txs[' in n and n.endswith('.Exists#0') and v}
         for n in list(init_state):
             if '.Verdict' in n:
@@ -260,6 +259,7 @@ def bmc_query(ts, depth, bad_names, stutter_choice, timeout_s=1500, extra_init=N
             if hit:
                 break
         res['hit'] = hit
+        res['hit_state'] = res['states'][hit[1] if hit else depth]
         if prefix is not None:
             # splice the waypoint prefix in front (schedule, parameters, initial verdicts)
             hk = prefix['hit'][1]
